@@ -69,10 +69,10 @@ def mask_width(t, env=None):
     return pow2_exp(one_more, env)
 
 
-def field_of(t, env=None):
+def field_of(t, env=None, word=32):
     """(x, shift, width) for (x >> shift) & mask"""
     if t[0] == "cast":
-        return field_of(t[2], env)
+        return field_of(t[2], env, word)
     if t[0] == "op" and t[1] == "&":
         for a, b in ((t[2], t[3]), (t[3], t[2])):
             w = mask_width(b, env)
@@ -82,6 +82,13 @@ def field_of(t, env=None):
             while x[0] == "cast":
                 x = x[2]
             if x[0] == "op" and x[1] == ">>":
+                y = x[2]
+                while y[0] == "cast":
+                    y = y[2]
+                if y[0] == "op" and y[1] == "<<" and sym.add(x[3], w) == I(word):
+                    # ((y << s) >> r) & (2^w - 1) on a `word`-bit unsigned value with r + w == word: the top w bits of
+                    # y << s are bits [r - s, r - s + w) of y  ==  (y >> (r - s)) & (2^w - 1)
+                    return y[2], sym.sub(x[3], y[3]), w
                 return x[2], x[3], w
             return x, ZERO, w
     return None
